@@ -284,6 +284,40 @@ def shape_key(prog):
     return None
 
 
+def _shard_worker(args):
+    """runs in a worker process: a shard of programs against its own Database / symbolic schema"""
+    idxs, progs, (pname, dialect, R, t_limit, pid, validate, exclude) = args
+    global PID
+    PID = pid
+    if pname != 'sqlite': E0.install_driver_stubs()
+    db = get_db(pname)
+    S = symdb.build(db, R=R, strlen=3)
+    out = []
+    for i, prog in zip(idxs, progs):
+        try:
+            obs = check_program(db, S, prog, dialect, pname, t_limit, validate=validate, exclude=exclude)
+        except Exception as ex:
+            import traceback
+            obs = [Ob('%s: %s' % (dialect, prog.src), 'z3', INCONCLUSIVE, detail='harness exception: %s' % traceback.format_exc()[-400:])]
+        out.append((i, obs))
+    return out
+
+
+def sharded(progs, cfg, procs=None):
+    """[(program, [Ob])] in program order; programs are dealt round-robin to worker processes (z3 is single-threaded)"""
+    import multiprocessing as mp, os
+    procs = procs or int(os.environ.get('VERIF_PROCS') or min(12, os.cpu_count() or 4))
+    if len(progs) < 24 or procs <= 1:
+        res = _shard_worker((list(range(len(progs))), progs, cfg))
+    else:
+        shards = [(list(range(k, len(progs), procs)), progs[k::procs], cfg) for k in range(procs)]
+        ctx = mp.get_context('spawn')
+        with ctx.Pool(procs) as pool:
+            res = [x for part in pool.map(_shard_worker, shards) for x in part]
+    res.sort(key=lambda t: t[0])
+    return [(progs[i], obs) for i, obs in res]
+
+
 def run(tier, seed, only=None):
     from pony.orm import sqltranslation as T, sqlbuilding as B
     from pony.orm.dbproviders import sqlite as SQ
@@ -300,11 +334,10 @@ def run(tier, seed, only=None):
     S = symdb.build(db, R=R, strlen=3)
     progs = programs(tier, rng)
     if only: progs = [p for p in progs if only in p.src]
-    n = 0
     t_limit = 10000 if tier == 'quick' else 30000
-    for prog in progs:
-        n += 1
-        for ob in check_program(db, S, prog, 'SQLite', 'sqlite', t_limit):
+    n = len(progs)
+    for prog, obs in sharded(progs, ('sqlite', 'SQLite', R, t_limit, PID, True, ()), None if only else None):
+        for ob in obs:
             rep.add(ob)
             if ob.verdict == CEX: rep.sample({'program': prog.src, 'counterexample': ob.cex, 'key': ob.key}, limit=6)
     rep.programs = n
